@@ -274,3 +274,187 @@ Theorem accepted_from_history : forall l a, In a (snd (adds_run l)) -> In a l.
 Proof.
   intros l a H. unfold adds_run in H. apply (accepted_sub l [] []) in H; [exact H|]. intros x [].
 Qed.
+
+(* ------------------------------------------------------------------ search *)
+Lemma insert_tag_in : forall x l y, In y (insert_tag x l) <-> y = x \/ In y l.
+Proof.
+  intros x. induction l as [|z r IH]; intro y; cbn [insert_tag].
+  - cbn. split; [intros [H|[]]; left; congruence|intros [H|[]]; left; congruence].
+  - destruct (x <? z) eqn:L.
+    + cbn. split; [intros [H|H]; [left; congruence|right; exact H]|intros [H|H]; [left; congruence|right; exact H]].
+    + destruct (x =? z) eqn:E.
+      * apply N.eqb_eq in E. subst z. cbn. split; [intro H; right; exact H|intros [H|H]; [left; congruence|exact H]].
+      * cbn [In]. rewrite IH. split; [intros [H|[H|H]]; auto|intros [H|[H|H]]; auto].
+Qed.
+
+Lemma tags_of_in : forall l y, In y (tags_of l) <-> exists a, In a l /\ a_tag a = y.
+Proof.
+  induction l as [|a l IH]; intro y; cbn.
+  - split; [contradiction|intros [a [[] _]]].
+  - unfold tags_of in *. cbn. rewrite insert_tag_in. rewrite IH. split.
+    + intros [->|[b [Hb Ht]]]; [exists a; auto|exists b; auto].
+    + intros [b [[<-|Hb] Ht]]; [left; auto|right; exists b; auto].
+Qed.
+
+Lemma currents_in : forall s t maxf p c, In c (currents s t maxf p) <->
+  exists x, In x s /\ a_typ x = t /\ p x = true /\ cur s t (a_key x) maxf = Some c.
+Proof.
+  intros s t maxf p c. unfold currents. rewrite in_flat_map. split.
+  - intros [x [Hx Hc]]. destruct ((a_typ x =? t) && p x) eqn:E; [|contradiction].
+    apply andb_true_iff in E. destruct E as [E1 E2]. apply N.eqb_eq in E1.
+    destruct (cur s t (a_key x) maxf) as [c0|] eqn:Ec; [|contradiction]. destruct Hc as [<-|[]]. exists x. auto.
+  - intros [x [Hx [Ht [Hp Hc]]]]. exists x. split; [exact Hx|]. rewrite Ht, N.eqb_refl, Hp, Hc. left. reflexivity.
+Qed.
+
+Lemma cur_key : forall s t k m c, cur s t k m = Some c -> In c s /\ a_typ c = t /\ a_key c = k /\ a_fmt c <= m.
+Proof.
+  intros s t k m c H. rewrite cur_unfold in H. apply best_in in H. apply filter_In in H. destruct H as [Hin Hs].
+  unfold sel in Hs. apply andb_true_iff in Hs. destruct Hs as [Hk Hf]. apply same_key_iff in Hk. destruct Hk. repeat split; auto. lia.
+Qed.
+
+(* Search is sound: everything it returns is the current assertion of a stored key that matches the given headers *)
+Theorem search_sound : forall s t hint m tg, In tg (search s t hint m) ->
+  exists c, a_tag c = tg /\ In c s /\ a_typ c = t /\ hint_match hint (a_key c) = true /\ cur s t (a_key c) m = Some c.
+Proof.
+  intros s t hint m tg H. unfold search in H. apply tags_of_in in H. destruct H as [c [Hc Ht]].
+  apply currents_in in Hc. destruct Hc as [x [Hx [Htx [Hp Hcur]]]].
+  destruct (cur_key _ _ _ _ _ Hcur) as [Hin [Hty [Hk _]]]. exists c. rewrite Hk. auto.
+Qed.
+
+(* ... and complete: every stored key that matches the given headers and has a current assertion is returned *)
+Theorem search_complete : forall s t hint m x c,
+  In x s -> a_typ x = t -> hint_match hint (a_key x) = true -> cur s t (a_key x) m = Some c ->
+  In (a_tag c) (search s t hint m).
+Proof.
+  intros s t hint m x c Hx Ht Hh Hc. unfold search. apply tags_of_in. exists c. split; [|reflexivity].
+  apply currents_in. exists x. auto.
+Qed.
+
+(* with all primary-key headers given (none empty) a search is a get *)
+Lemma hint_match_full : forall k k', forallb (fun c => negb (is_nil_b c)) k = true -> hint_match k k' = key_eqb k k'.
+Proof.
+  induction k as [|h k IH]; intros k' H; destruct k' as [|x k']; cbn in *; try reflexivity.
+  apply andb_true_iff in H. destruct H as [H1 H2]. apply negb_true_iff in H1. rewrite H1. cbn. rewrite (IH k' H2). reflexivity.
+Qed.
+
+Theorem search_after_put : forall s a s',
+  put s a = (s', Accepted) -> a_fmt a <= max_supp (a_typ a) ->
+  forallb (fun c => negb (is_nil_b c)) (a_key a) = true ->
+  search s' (a_typ a) (a_key a) (max_supp (a_typ a)) = [a_tag a].
+Proof.
+  intros s a s' H Hf Hne. destruct (put_accepted _ _ _ H Hf) as [-> [Hcur _]].
+  assert (Hall : forall c, In c (currents (insert a s) (a_typ a) (max_supp (a_typ a)) (fun x => hint_match (a_key a) (a_key x))) -> c = a).
+  { intros c Hc. apply currents_in in Hc. destruct Hc as [x [_ [_ [Hp Hc]]]]. rewrite (hint_match_full _ _ Hne) in Hp.
+    apply key_eqb_true_iff in Hp. rewrite <- Hp in Hc. rewrite Hcur in Hc. congruence. }
+  assert (Hin : In a (currents (insert a s) (a_typ a) (max_supp (a_typ a)) (fun x => hint_match (a_key a) (a_key x)))).
+  { apply currents_in. exists a. split; [left; reflexivity|]. split; [reflexivity|]. split; [|exact Hcur].
+    rewrite (hint_match_full _ _ Hne). apply key_eqb_true_iff. reflexivity. }
+  unfold search. revert Hall Hin. generalize (currents (insert a s) (a_typ a) (max_supp (a_typ a)) (fun x => hint_match (a_key a) (a_key x))).
+  induction l as [|c l IH]; intros Hall Hin; [contradiction|].
+  assert (c = a) by (apply Hall; left; reflexivity). subst c. unfold tags_of in *. cbn [fold_right].
+  destruct l as [|c2 l2]; [reflexivity|].
+  rewrite IH; [|intros c Hc; apply Hall; right; exact Hc|left; apply Hall; right; left; reflexivity].
+  cbn. rewrite N.ltb_irrefl, N.eqb_refl. reflexivity.
+Qed.
+
+(* the file-name view of Search gives the same result for EVERY injective escape function *)
+Lemma pat_match_injective : forall esc, (forall a b, esc a = esc b -> a = b) ->
+  forall hint k, pat_match esc hint k = hint_match hint k.
+Proof.
+  intros esc Hinj. induction hint as [|h hint IH]; intros k; destruct k as [|x k]; cbn; try reflexivity.
+  rewrite IH. f_equal. f_equal. destruct (beq h x) eqn:E.
+  - apply beq_true_iff in E. subst. apply beq_true_iff. reflexivity.
+  - destruct (beq (esc h) (esc x)) eqn:E2; [|reflexivity]. apply beq_true_iff in E2. apply Hinj in E2. subst.
+    assert (beq x x = true) by (apply beq_true_iff; reflexivity). congruence.
+Qed.
+
+Lemma currents_ext : forall s t m p q, (forall x, p x = q x) -> currents s t m p = currents s t m q.
+Proof.
+  intros s t m p q H. unfold currents. generalize s at 2 4. induction s0 as [|x r IH]; [reflexivity|].
+  cbn. rewrite H, IH. reflexivity.
+Qed.
+
+Theorem search_esc_injective : forall esc, (forall a b, esc a = esc b -> a = b) ->
+  forall s t hint m, search_esc esc s t hint m = search s t hint m.
+Proof.
+  intros esc Hinj s t hint m. unfold search_esc, search. f_equal. apply currents_ext. intro x. apply pat_match_injective. exact Hinj.
+Qed.
+
+(* path cleaning: keys without "." and ".." components keep their path; with them two keys can share one *)
+Lemma clean_from : forall k acc, forallb (fun c => negb (is_dot c)) k = true ->
+  fold_left (fun acc c => if beq c DOT then acc else if beq c DOTDOT then removelast acc else acc ++ [c]) k acc = acc ++ k.
+Proof.
+  induction k as [|c k IH]; intros acc H; cbn [fold_left]; [rewrite app_nil_r; reflexivity|].
+  cbn in H. apply andb_true_iff in H. destruct H as [H1 H2]. apply negb_true_iff in H1. unfold is_dot in H1.
+  apply orb_false_iff in H1. destruct H1 as [Ha Hb]. rewrite Ha, Hb. rewrite (IH _ H2). rewrite <- app_assoc. reflexivity.
+Qed.
+
+Theorem clean_dot_free : forall k, forallb (fun c => negb (is_dot c)) k = true -> clean_path k = k.
+Proof. intros k H. unfold clean_path. rewrite (clean_from k [] H). reflexivity. Qed.
+
+(* ------------------------------------------------------------------ the repaired escape of the filesystem backstore *)
+Lemma unhex_hex : forall d, unhex (hex_digit d) = d.
+Proof. intro d. unfold unhex, hex_digit. destruct (d <? 10) eqn:E; [destruct (48 + d <? 58) eqn:E2|destruct (55 + d <? 58) eqn:E2]; lia. Qed.
+
+Lemma unreserved_plain : forall c, unreserved c = true -> (c =? 43) = false /\ (c =? 37) = false /\ (c =? 47) = false.
+Proof. intros c H. unfold unreserved, is_alpha, is_lower, is_upper, is_digit in H. lia. Qed.
+
+Theorem unescape_query_escape : forall s, unescape (query_escape s) = s.
+Proof.
+  induction s as [|c r IH]; [reflexivity|]. cbn [query_escape]. destruct (unreserved c) eqn:U.
+  - destruct (unreserved_plain c U) as [H1 [H2 _]]. cbn [unescape]. rewrite H1, H2, IH. reflexivity.
+  - destruct (c =? 32) eqn:E.
+    + apply N.eqb_eq in E. subst c. cbn [unescape]. rewrite N.eqb_refl, IH. reflexivity.
+    + cbn [unescape]. change (37 =? 43) with false. change (37 =? 37) with true. cbn iota. rewrite !unhex_hex, IH.
+      f_equal. pose proof (N.div_mod c 16 ltac:(lia)). lia.
+Qed.
+
+Theorem unescape_escape_comp : forall s, unescape (escape_comp s) = s.
+Proof.
+  intro s. unfold escape_comp. pose proof (unescape_query_escape s) as H.
+  destruct (beq (query_escape s) [46]) eqn:E1.
+  - apply beq_true_iff in E1. rewrite E1 in H. rewrite <- H. reflexivity.
+  - destruct (beq (query_escape s) [46; 46]) eqn:E2; [|exact H].
+    apply beq_true_iff in E2. rewrite E2 in H. rewrite <- H. reflexivity.
+Qed.
+
+Theorem escape_comp_injective : forall a b, escape_comp a = escape_comp b -> a = b.
+Proof. intros a b H. rewrite <- (unescape_escape_comp a), <- (unescape_escape_comp b), H. reflexivity. Qed.
+
+Lemma hex_digit_no_slash : forall d, (hex_digit d =? 47) = false.
+Proof. intro d. unfold hex_digit. destruct (d <? 10); lia. Qed.
+
+Lemma query_escape_no_slash : forall s, existsb (fun c => c =? 47) (query_escape s) = false.
+Proof.
+  induction s as [|c r IH]; [reflexivity|]. cbn [query_escape]. destruct (unreserved c) eqn:U.
+  - destruct (unreserved_plain c U) as [_ [_ H3]]. cbn [existsb]. rewrite H3, IH. reflexivity.
+  - destruct (c =? 32); cbn [existsb]; rewrite ?hex_digit_no_slash, IH; reflexivity.
+Qed.
+
+(* the name of the directory is never "." or "..", is not empty unless the value is, and contains no path separator *)
+Theorem escape_comp_safe : forall s,
+  is_dot (escape_comp s) = false /\ existsb (fun c => c =? 47) (escape_comp s) = false /\ (escape_comp s = [] -> s = []).
+Proof.
+  intro s. unfold escape_comp. destruct (beq (query_escape s) [46]) eqn:E1; [repeat split; try reflexivity; discriminate|].
+  destruct (beq (query_escape s) [46; 46]) eqn:E2; [repeat split; try reflexivity; discriminate|].
+  split; [unfold is_dot, DOT, DOTDOT; rewrite E1, E2; reflexivity|]. split; [apply query_escape_no_slash|].
+  intro H. rewrite <- (unescape_query_escape s), H. reflexivity.
+Qed.
+
+Theorem escaped_path_kept : forall k, clean_path (map escape_comp k) = map escape_comp k.
+Proof.
+  intro k. apply clean_dot_free. apply forallb_forall. intros x Hx. apply in_map_iff in Hx. destruct Hx as [y [<- _]].
+  destruct (escape_comp_safe y) as [H _]. rewrite H. reflexivity.
+Qed.
+
+(* distinct primary keys, distinct files *)
+Theorem distinct_keys_distinct_files : forall k1 k2,
+  clean_path (map escape_comp k1) = clean_path (map escape_comp k2) -> k1 = k2.
+Proof.
+  intros k1 k2 H. rewrite !escaped_path_kept in H. revert k2 H.
+  induction k1 as [|a k1 IH]; intros [|b k2] H; cbn in H; try discriminate; [reflexivity|].
+  inversion H as [[Ha Hk]]. apply escape_comp_injective in Ha. subst. f_equal. apply IH. exact Hk.
+Qed.
+
+Theorem search_repaired_escape : forall s t hint m, search_esc escape_comp s t hint m = search s t hint m.
+Proof. apply search_esc_injective. exact escape_comp_injective. Qed.
